@@ -6,6 +6,7 @@
 #include <vector>
 #include <deque>
 #include <map>
+#include <set>
 #include <string>
 #include <functional>
 #include <algorithm>
@@ -80,6 +81,7 @@ struct Bus {
 	bool answers_enabled = true;
 	std::map<std::string, uint64_t> fired;       // fault kind -> times it actually fired
 	std::map<int, uint64_t> answered_types;
+	std::set<int> drop_answer_types;                              // answers of these types are never delivered (until the faults stop)
 	std::map<int, std::pair<uint64_t, uint64_t>> type_delays;   // answer type -> (from the n-th answer of that type on, extra delay in us): a slow node
 	int receiver_task = -1;
 	uint64_t max_write = 0;
@@ -387,6 +389,7 @@ struct Bus {
 			if (it->second.kind == "alt") { if (a.has_alt) { a.type = a.alt_type; a.data = a.alt_data; fired["alt"]++; } }
 			else fs.push_back(it->second);
 		}
+		if (drop_answer_types.count(a.type)) { fired["lose"]++; return; }
 		answered_types[a.type]++;
 		uint64_t extra = 0;
 		auto td = type_delays.find(a.type);
